@@ -238,11 +238,14 @@ def finish(result, tier, level, rule, t0, assumptions=None, min_eval=1, level_ex
     prop = result.prop
     known = load_known()
     seed = get_seed()
-    os.makedirs(os.path.join(VERIF, "evidence"), exist_ok=True)
-    os.makedirs(os.path.join(VERIF, "replays"), exist_ok=True)
+    # (seeded-defect evaluation redirects both so that a run against a patched worktree never touches the real evidence)
+    evidence_dir = os.environ.get("VERIF_EVIDENCE_DIR") or os.path.join(VERIF, "evidence")
+    replay_dir = os.environ.get("VERIF_REPLAY_DIR") or os.path.join(VERIF, "replays")
+    os.makedirs(evidence_dir, exist_ok=True)
+    os.makedirs(replay_dir, exist_ok=True)
 
     import glob as _glob
-    for old in _glob.glob(os.path.join(VERIF, "replays", "%s-%s-*.json" % (prop, tier))):
+    for old in _glob.glob(os.path.join(replay_dir, "%s-%s-*.json" % (prop, tier))):
         try:
             os.unlink(old)
         except OSError:
@@ -262,7 +265,7 @@ def finish(result, tier, level, rule, t0, assumptions=None, min_eval=1, level_ex
         lines.append("KNOWN-FINDING: property=%s %s [%s; %d occurrence(s) this run]" % (prop, k["what"], kid, n))
     replay_paths = []
     for i, (key, ms) in enumerate(sorted(violations.items())):
-        rp = os.path.join(VERIF, "replays", "%s-%s-%d.json" % (prop, tier, i))
+        rp = os.path.join(replay_dir, "%s-%s-%d.json" % (prop, tier, i))
         with open(rp, "w") as f:
             json.dump({"property": prop, "tier": tier, "seed": seed, "key": key,
                        "count": len(ms), "witnesses": ms[:5]}, f, indent=1, default=str)
@@ -304,7 +307,7 @@ def finish(result, tier, level, rule, t0, assumptions=None, min_eval=1, level_ex
         "wall_s": round(time.time() - t0, 2),
         "violations": len(violations),
     }
-    with open(os.path.join(VERIF, "evidence", prop + ".json"), "w") as f:
+    with open(os.path.join(evidence_dir, prop + ".json"), "w") as f:
         json.dump(ev, f, indent=1, default=str)
     for ln in lines:
         print(ln)
